@@ -481,7 +481,7 @@ def rule_rows(chk, fb, store, mapf):
                 fl = Flow(fb, cb)
                 t = cb["blocks"][bi]["t"]
                 at = fl.atoms(t["args"][0], through_calls=False)
-                params = [a[1] for a in at if a[0] == "arg"]
+                params = [a[1] for a in at if a[0] == "arg" and store in fb.ty(cb["locals"][a[1]]["t"]) and "&mut" in fb.ty(cb["locals"][a[1]]["t"])]
                 if not params:
                     chk.ob(rd, inst, False, where="%s:%s" % (cb["file"], t["ln"]), detail="inserts into a store that is not a parameter, in a function with loops, without establishing the row")
                     continue
